@@ -25,6 +25,10 @@ var c15Fixed = []struct{ prog, want string }{
 	{"(def lst (quote (1 2))) ^(a ~@lst ~@(quote ()) ~@lst b)", "(sym:a 1 2 1 2 sym:b)"},
 	{"(def x 5) ^(a (b [~x {k: ~(+ x 1)}]) ~@(list x x))", "(sym:a (sym:b [5 (sym:hash sym:k 6)]) 5 5)"},
 	{"(defmac mk [name val] ^(def ~name ~val)) (mk zork 7) (+ zork 1)", "8"},
+	// a splice with nothing to be spliced into
+	{"(def l (quote (1 2 3))) ^~@l", "ERR"},
+	{"(def l (quote (1 2 3))) (def r9 ^~@l) r9", "ERR"},
+	{"(def l (quote (1 2 3))) (list ^(~@l) ^[~@l] ^(a ~@l))", "((1 2 3) [1 2 3] (sym:a 1 2 3))"},
 	// a dot path given to a macro is a form like any other argument
 	{"(def h (hash x: 1)) (defmac setit [v] ^(set ~v 7)) (setit h.x) (hget h x:)", "7"},
 	{"(def h (hash x: 1)) (defmac qt [v] ^(quote ~v)) (str (qt h.x))", `"h.x"`},
@@ -45,6 +49,17 @@ func c15Extra(c *core.Ctx, k int) *core.Result {
 			if o.Panic != "" {
 				res.Violate("escaped-panic:"+o.Site, o.Panic, f.prog)
 				return res
+			}
+			if d := sut.DepthsOf(s.Env); !atRest(d) || d.Data != 0 {
+				res.Violate("template-leaves-operands-behind", fmt.Sprintf("after the evaluation the stacks are %v", d), f.prog)
+				return res
+			}
+			if f.want == "ERR" {
+				if o.Err == nil {
+					res.Violate("fixed-template-expectation", fmt.Sprintf("must be rejected, got %s", sut.Show(o.Val)), f.prog)
+					return res
+				}
+				continue
 			}
 			if got := sut.Show(o.Val); o.Err != nil || got != f.want {
 				res.Violate("fixed-template-expectation", fmt.Sprintf("must give %s, got %s (err %v)", f.want, got, o.Err), f.prog)
